@@ -1,5 +1,6 @@
 SPECIFICATION Spec
 CONSTANTS SMAX = 255
+          YSTEP = 1
 INVARIANT AddOK
 INVARIANT LogicOK
 INVARIANT ShiftOK
